@@ -364,9 +364,19 @@ var valuePanics = map[string]string{
 	"(reflect.Value).FieldByIndex": "panics with a plain string when the index path crosses a nil embedded pointer",
 }
 
-// libraryPanic treats the call as a possible panic with an unknown value.
-func (e *Engine) libraryPanic(st *State, c *ast.CallExpr, full, why string) {
+// reflectSetters panic on an invalid (zero) Value; whether the Value is valid depends on run-time values (rv_valid).
+// Their other documented panics (kind mismatch, unaddressable or unexported operand) are excluded by the static types
+// of the bytecode and are part of the trusted base.
+var reflectSetters = map[string]bool{"(reflect.Value).Set": true, "(reflect.Value).SetInt": true, "(reflect.Value).SetUint": true,
+	"(reflect.Value).SetBool": true, "(reflect.Value).SetFloat": true, "(reflect.Value).SetString": true, "(reflect.Value).SetComplex": true}
+
+// libraryPanic treats the call as a possible panic with an unknown value unless `safe` holds.
+func (e *Engine) libraryPanic(st *State, c *ast.CallExpr, full, why, safe string) {
 	e.stubsUsed[full+": may panic ("+why+")"] = true
+	if e.c.Trusted || e.c.Opts["reflectpanics"] != "checked" && safe != "false" {
+		// the validity of reflect operands is an obligation only in units that opt in (opt reflectpanics checked)
+		return
+	}
 	if len(e.c.PanicPost) > 0 && len(e.inlineStack) == 0 {
 		if obj := e.resVarObj(e.pk, e.c, "panicval"); obj != nil {
 			s2 := st.clone()
@@ -376,12 +386,12 @@ func (e *Engine) libraryPanic(st *State, c *ast.CallExpr, full, why string) {
 				e.spec++
 				v := e.ev(pp.Expr, s2)
 				e.spec--
-				e.obligeNamed(st, fmt.Sprintf("panicpost#%d@%d", i, site), "post", v.T, c.Pos(), fmt.Sprintf("value of a panic raised by %s satisfies %q", full, pp.Text), pp.Prop)
+				e.obligeNamed(st, fmt.Sprintf("panicpost#%d@%d", i, site), "post", sx("or", safe, v.T), c.Pos(), fmt.Sprintf("%s does not panic, or the value of its panic satisfies %q", full, pp.Text), pp.Prop)
 			}
 		}
 	}
 	if !e.c.Panics {
-		e.oblige(st, "panic", "false", c.Pos(), full+" "+why)
+		e.oblige(st, "panic", safe, c.Pos(), full+" "+why)
 	}
 }
 
@@ -628,7 +638,11 @@ func (e *Engine) stdStub(full string, c *ast.CallExpr, recv *Value, args []Value
 		return nil, false
 	}
 	if why, ok := valuePanics[full]; ok && e.spec == 0 && e.bound == 0 {
-		e.libraryPanic(st, c, full, why)
+		e.libraryPanic(st, c, full, why, "false")
+	}
+	if reflectSetters[full] && recv != nil && e.spec == 0 && e.bound == 0 {
+		e.declareFun("rv_valid", []string{e.sortOf(recv.Typ)}, "Bool")
+		e.libraryPanic(st, c, full, "panics with a *reflect.ValueError on the zero Value (e.g. Elem of a nil pointer)", sx("rv_valid", recv.T))
 	}
 	if purePkgs[pkgPath] {
 		if sliceWriters[full] {
